@@ -276,13 +276,13 @@ func (cli *Client) EnrollContext(c net.Conn, ctx any) (Conn, error) {
 		if err != nil {
 			return nil, err
 		}
-		gc = newStreamConn("tcp", dupFD, el, sockAddr, c.LocalAddr(), c.RemoteAddr())
+		gc = newStreamConn("tcp", dupFD, el, sockAddr, ownedAddr(c.LocalAddr()), ownedAddr(c.RemoteAddr()))
 	case *net.UDPConn:
 		sockAddr, _, _, _, err = socket.GetUDPSockAddr(c.RemoteAddr().Network(), c.RemoteAddr().String())
 		if err != nil {
 			return nil, err
 		}
-		gc = newUDPConn(dupFD, el, c.LocalAddr(), sockAddr, true)
+		gc = newUDPConn(dupFD, el, ownedAddr(c.LocalAddr()), sockAddr, true)
 	default:
 		return nil, errorx.ErrUnsupportedProtocol
 	}
